@@ -17,8 +17,7 @@ HERE = os.path.dirname(os.path.dirname(os.path.abspath(__file__)))
 def digests(check_id, seed, start, count):
     from . import props
 
-    fam = props.FAMILY[check_id]
-    scn = fam()
+    scn = props.make_scenario(check_id)
     out = []
     for i in range(start, start + count):
         for program, desc, s, viol, stats in runner.one_run(scn, check_id, seed, i):
